@@ -80,6 +80,10 @@ pub struct RtProgram {
     /// handlers hand work to a helper thread that reads the simulation clock (the first few events of the run)
     #[serde(default)]
     pub helper_reads: bool,
+    /// fault: the handler of this event instance (index modulo the number of instances) panics before it schedules
+    /// anything; the driver catches the panic around `dispatch_all` and carries on
+    #[serde(default)]
+    pub panic_uid: Option<u32>,
 }
 
 // ---------------------------------------------------------------- static expansion
@@ -142,6 +146,12 @@ fn expand(p: &RtProgram) -> (Vec<Inst>, Vec<usize>) {
             queue.push_back(c);
         }
     }
+    if let Some(u) = p.panic_uid {
+        if !insts.is_empty() {
+            let u = u as usize % insts.len();
+            insts[u].children.clear();
+        }
+    }
     (insts, roots)
 }
 
@@ -170,6 +180,7 @@ struct App {
     specs: Vec<Spec>,
     roots: Vec<usize>,
     log: Log,
+    panic_uid: Option<usize>,
 }
 
 impl Application for App {
@@ -246,7 +257,7 @@ impl EventLifecycle for App {
 
 /// what the intruding thread of the C04 fault does: a generic runtime of its own, built and dropped
 pub fn build_and_drop_generic_runtime(start_ns: u64) {
-    let app = App { insts: vec![], specs: vec![], roots: vec![], log: Log::default() };
+    let app = App { insts: vec![], specs: vec![], roots: vec![], log: Log::default(), panic_uid: None };
     let rt = Builder::seeded(3).quiet().start_time(SimTime::from_duration(Duration::from_nanos(start_ns))).build(app);
     drop(rt);
 }
@@ -306,6 +317,9 @@ impl Event<App> for Ev {
         helper_hook(self.uid);
         let now = ns_of(SimTime::now());
         rt.app.log.handled.push((self.uid, now));
+        if rt.app.panic_uid == Some(self.uid) {
+            panic!("scripted panic in the handler of event {}", self.uid);
+        }
         if self.uid >= EXT_BASE {
             return;
         }
@@ -358,7 +372,8 @@ fn calls_stop(calls: &[LimCall], k: u64, time: u64) -> bool {
 fn make_runtime(p: &RtProgram, with_limits: bool) -> Runtime<App> {
     let t = p.t_ns.max(1);
     let (insts, roots) = expand(p);
-    let app = App { insts, specs: p.specs.clone(), roots, log: Log::default() };
+    let panic_uid = p.panic_uid.filter(|_| !insts.is_empty()).map(|u| u as usize % insts.len());
+    let app = App { insts, specs: p.specs.clone(), roots, log: Log::default(), panic_uid };
     let mut b = Builder::seeded(1).quiet().cqueue_options(p.n.max(1), dur(t));
     let start = cap_delta(p.start_ns, t);
     if start > 0 {
@@ -489,8 +504,20 @@ fn finish_real(res: Result<(App, SimTime, Profiler<Ev>), RuntimeError>) -> RealR
 
 fn run_plain(p: &RtProgram, with_limits: bool) -> RealRun {
     let r = std::panic::catch_unwind(std::panic::AssertUnwindSafe(|| {
-        let rt = make_runtime(p, with_limits);
-        finish_real(rt.run())
+        let mut rt = make_runtime(p, with_limits);
+        if p.panic_uid.is_none() {
+            return finish_real(rt.run());
+        }
+        // a handler panics: the driver catches the panic around the dispatch call and carries on
+        rt.start();
+        for _ in 0..4 {
+            let r = std::panic::catch_unwind(std::panic::AssertUnwindSafe(|| rt.dispatch_all()));
+            if r.is_ok() {
+                break;
+            }
+            crate::clear_panic();
+        }
+        finish_real(rt.finish())
     }));
     match r {
         Ok(r) => r,
@@ -738,7 +765,7 @@ fn check_c02(p: &RtProgram, insts: &[Inst], roots: &[usize], start: u64, real: &
             }
             SCALE.with(|s| s.set(u128::from(sc)));
             e2.store(true, std::sync::atomic::Ordering::SeqCst);
-            let app = App { insts: vec![], specs: vec![], roots: vec![], log: Log::default() };
+            let app = App { insts: vec![], specs: vec![], roots: vec![], log: Log::default(), panic_uid: None };
             let rt = Builder::seeded(3).quiet().start_time(st(bstart)).build(app);
             drop(rt);
             true
@@ -1034,6 +1061,11 @@ fn check_c11(p: &RtProgram, insts: &[Inst], roots: &[usize], start: u64, unlimit
     // event at its timestamp (C02) there is no reference sequence to cut
     if unlimited.handled.iter().any(|(uid, clock)| insts.get(*uid).map_or(true, |i| i.time != *clock)) {
         return;
+    }
+    if let Some(u) = p.panic_uid {
+        if !insts.is_empty() && unlimited.handled.iter().any(|h| h.0 == u as usize % insts.len()) {
+            info.probe("handler_panic_caught_by_the_driver");
+        }
     }
     let lim = run_plain(p, true);
     if let Some(e) = &lim.escaped_panic {
@@ -1371,7 +1403,7 @@ pub fn generate(prop: &str, rng: &mut Rng, tier: Tier) -> RtProgram {
     // now and then the whole program is stretched: its time unit is not the nanosecond but up to 1000 s, which moves
     // start time, timestamps and bucket width beyond 2^64 ns (584 simulated years) without changing the program
     let scale = if rng.chance(1, 12) { *rng.pick(&[7u64, 1_000, 1_000_000, 1_000_000_007, 1_000_000_000_000, 1_000_000_000_000]) } else { 1 };
-    let mut prog = RtProgram { n, t_ns, scale, start_ns, specs, roots, max_instances, limits: vec![], steps: vec![], intruder: None, helper_reads: false };
+    let mut prog = RtProgram { n, t_ns, scale, start_ns, specs, roots, max_instances, limits: vec![], steps: vec![], intruder: None, helper_reads: false, panic_uid: None };
     if prop == "C02" && rng.chance(1, 100) {
         prog.helper_reads = true;
     }
@@ -1379,6 +1411,9 @@ pub fn generate(prop: &str, rng: &mut Rng, tier: Tier) -> RtProgram {
         prog.intruder = Some((rng.below(64) as u32, if rng.chance(1, 2) { 0 } else { rng.below(t_ns.saturating_mul(1000).max(2)) }));
     }
 
+    if prop == "C11" && rng.chance(1, 10) {
+        prog.panic_uid = Some(rng.below(1 << 16) as u32);
+    }
     if prop == "C11" {
         // limits are chosen knowing the timestamps of the program (static expansion)
         let (insts, _) = expand(&prog);
